@@ -573,7 +573,62 @@ def check_block_selection(rep, prop):
         prove('post.next_edge_time', SB(sv(p.state.items[0]).t == z3.Select(p.edges.arr0, sv(p.end0 + 1).t)) if isinstance(p.state.items[0], SV) else False)
     eng2 = _selection_engine()
     FuncVC(rep, prop, nb, name2, eng2).run(start2, post2, replay_block_selection)
-    rep.assume('block selection: LoadTracer.__init__ establishes J (block_index = 0, block_data_index = blocks[0].start; state[3] = blocks[0].end is set where the state list is built) - by inspection; get_edges gives start(b) > end(b-1) - observed in the bounded runs')
+    check_selection_state_frame(rep, prop)
+    rep.assume('block selection: the C tape loop (c/csimulator.c) reads tracer_state[3] and never writes it (text search of the C source; the C side is otherwise covered by the bounded option differential only)')
+    rep.assume('block selection: get_edges gives start(b) > end(b-1) and end(b) <= max_index (the blocks lie one after the other inside the edge list) - observed in the bounded runs')
+
+
+def check_selection_state_frame(rep, prop):
+    """J is established by __init__ and only __init__, next_block and stop_tape write the attributes it talks about
+    (AST of the LoadTracer class, re-read every run): block_index, block_data_index, max_index, blocks, and state[3]."""
+    import inspect
+    import textwrap
+    import skoolkit.loadtracer as LT
+    cls = ast.parse(textwrap.dedent(inspect.getsource(LT.LoadTracer))).body[0]
+    fname = 'skoolkit.loadtracer.LoadTracer[block selection state]'
+    results = []
+    init = [n for n in cls.body if isinstance(n, ast.FunctionDef) and n.name == '__init__'][0]
+    assigns = {}
+    for n in ast.walk(init):
+        if isinstance(n, ast.Assign) and len(n.targets) == 1 and isinstance(n.targets[0], ast.Attribute) and isinstance(n.targets[0].value, ast.Name) and n.targets[0].value.id == 'self':
+            assigns.setdefault(n.targets[0].attr, []).append(n.value)
+    def single(attr, text):
+        v = assigns.get(attr, [])
+        # (the state list may be re-wrapped as an array of the same values for the C simulator)
+        return len(v) >= 1 and ast.unparse(v[0]).replace(' ', '') == text
+    results.append(('init.block_index_is_0', len(assigns.get('block_index', [])) == 1 and single('block_index', '0')))
+    results.append(('init.block_data_index_is_start_of_block_0', len(assigns.get('block_data_index', [])) == 1 and single('block_data_index', 'self.blocks[0].start')))
+    results.append(('init.max_index_is_the_last_edge_index', len(assigns.get('max_index', [])) == 1 and single('max_index', 'len(self.edges)-1')))
+    st = assigns.get('state', [])
+    ok_state = bool(st) and isinstance(st[0], ast.List) and len(st[0].elts) == 10 and ast.unparse(st[0].elts[3]).replace(' ', '') == 'self.blocks[0].end' and ast.unparse(st[0].elts[1]) == '0'
+    ok_state = ok_state and all(ast.unparse(v).replace(' ', '') in ("array.array('Q',self.state)",) for v in st[1:])
+    results.append(('init.state_1_is_0_and_state_3_is_end_of_block_0', ok_state))
+    # writers
+    allowed = {'block_index': {'__init__', 'next_block', 'stop_tape'}, 'block_data_index': {'__init__', 'next_block'}, 'max_index': {'__init__'}, 'blocks': {'__init__'}}
+    writers = {k: set() for k in allowed}
+    state3 = set()
+    for fn in [n for n in ast.walk(cls) if isinstance(n, ast.FunctionDef)]:
+        for n in ast.walk(fn):
+            tgts = []
+            if isinstance(n, ast.Assign):
+                tgts = n.targets
+            elif isinstance(n, (ast.AugAssign, ast.AnnAssign)):
+                tgts = [n.target]
+            for t in tgts:
+                for e in (t.elts if isinstance(t, (ast.Tuple, ast.List)) else [t]):
+                    if isinstance(e, ast.Attribute) and isinstance(e.value, ast.Name) and e.value.id == 'self' and e.attr in writers:
+                        writers[e.attr].add(fn.name)
+                    if isinstance(e, ast.Subscript) and ast.unparse(e.value) in ('self.state', 'state'):
+                        ix = ast.unparse(e.slice)
+                        if ix == '3' or not ix.isdigit():
+                            state3.add(fn.name)
+    for k in allowed:
+        results.append(('frame.%s_written_only_by_%s' % (k, '_'.join(sorted(allowed[k]))), writers[k] <= allowed[k]))
+    results.append(('frame.state_3_written_only_by_next_block', state3 <= {'next_block'}))
+    for oid, ok in results:
+        rep.add('%s/%s/%s' % (prop, fname, oid), 'proved' if ok else 'failed', 'ast-dataflow', 0.0, fname)
+        if not ok:
+            rep.violation('%s/%s/%s' % (prop, fname, oid), 'the block-selection invariant J (block_data_index == start(block_index), state[3] == end(block_index)) is no longer established / framed: %s fails (writers: %s, state[3]: %s)' % (oid, {k: sorted(v) for k, v in writers.items()}, sorted(state3)), no_input=True)
 
 
 def replay_block_selection(vals, kind):
